@@ -14,6 +14,9 @@ Notation fm := (fm (R:=R)). Notation arr := (arr (R:=R)). Notation op := (op (R:
 Variable chol_o : nat -> fm -> fm.                     (* numpy.linalg.cholesky *)
 Variable lu_o : nat -> fm -> (nat -> nat) * fm * fm.   (* scipy.linalg.lu(a, p_indices=True): a = (L U)[p, :] *)
 Variable sqrt_o : R -> R.                              (* x ** 0.5, element-wise *)
+(* defect flag plu_diagonal_negative_nan (probed on the implementation on every run): true = the pinned tree's rule
+   plu(Diagonal | ScalarMul) = (I, sqrt A, sqrt A); false = the repaired rule (I, I, A) *)
+Variable plu_sqrt : bool.
 
 (* the returned operators *)
 Inductive dop :=
@@ -49,8 +52,8 @@ Fixpoint chol (e : op) {struct e} : dop :=
 Fixpoint plu (e : op) {struct e} : dop * dop * dop :=
   match e with
   | Ident n => (DOp e, DOp e, DOp e)
-  | Diag n d => (DOp (Ident n), DOp (sqrt_diag n d), DOp (sqrt_diag n d))
-  | Scal c n => (DOp (Ident n), DOp (sqrt_scal c n), DOp (sqrt_scal c n))
+  | Diag n d => if plu_sqrt then (DOp (Ident n), DOp (sqrt_diag n d), DOp (sqrt_diag n d)) else (DOp (Ident n), DOp (Ident n), DOp e)
+  | Scal c n => if plu_sqrt then (DOp (Ident n), DOp (sqrt_scal c n), DOp (sqrt_scal c n)) else (DOp (Ident n), DOp (Ident n), DOp e)
   | Kron ms => let l := map plu ms in
                (DKron (map (fun t => fst (fst t)) l), DKron (map (fun t => snd (fst t)) l), DKron (map (fun t => snd t) l))
   | BDiag ms => let l := map (fun mc => (plu (fst mc), snd mc)) ms in
@@ -84,6 +87,25 @@ Fixpoint mirror (tri : dty) (e : op) {struct e} : dty :=
   | Kron ms => DtKron (map (mirror tri) ms)
   | BDiag ms => DtBDiag (map (fun mc => (mirror tri (fst mc), snd mc)) ms)
   | _ => tri
+  end.
+(* the L and U factors of plu: as [mirror] under the pinned rule; (Identity, the operator itself) for Diagonal / ScalarMul under the repaired one *)
+Fixpoint mirrorL (e : op) {struct e} : dty :=
+  match e with
+  | Ident _ => DtOp 2
+  | Diag _ _ => if plu_sqrt then DtOp 1 else DtOp 2
+  | Scal _ _ => if plu_sqrt then DtScalId else DtOp 2
+  | Kron ms => DtKron (map mirrorL ms)
+  | BDiag ms => DtBDiag (map (fun mc => (mirrorL (fst mc), snd mc)) ms)
+  | _ => DtTri true
+  end.
+Fixpoint mirrorU (e : op) {struct e} : dty :=
+  match e with
+  | Ident _ => DtOp 2
+  | Diag _ _ => DtOp 1
+  | Scal _ _ => if plu_sqrt then DtScalId else DtOp 3
+  | Kron ms => DtKron (map mirrorU ms)
+  | BDiag ms => DtBDiag (map (fun mc => (mirrorU (fst mc), snd mc)) ms)
+  | _ => DtTri false
   end.
 (* the permutation factor: Identity for Identity/Diagonal/ScalarMul, Permutation for dense inputs *)
 Fixpoint mirrorP (e : op) {struct e} : dty :=
